@@ -684,8 +684,10 @@ class Cli:
         self.cwd = os.path.join(ctx.scratch, "clicwd")
         os.makedirs(self.cwd, exist_ok=True)
 
-    def run(self, args, timeout=20):
+    def run(self, args, timeout=20, env_extra=None):
         env = {"PATH": "/usr/bin:/bin", "HOME": self.cwd, "LC_ALL": "C"}
+        if env_extra:
+            env.update(env_extra)
         try:
             p = subprocess.run([self.pdsh] + args, stdout=subprocess.PIPE, stderr=subprocess.PIPE, cwd=self.cwd,
                                env=env, timeout=timeout, stdin=subprocess.DEVNULL)
@@ -707,9 +709,24 @@ class Cli:
             return "nohosts"
         return "rc%d" % rc
 
+    def linebuf(self):
+        """LINEBUFSIZE of the tree under test (fgets piece size of wcoll.c); 2048 when it can not be read"""
+        try:
+            m = re.search(r"#\s*define\s+LINEBUFSIZE\s+(\d+)", open(os.path.join(self.repo, "src/common/macros.h")).read())
+            return int(m.group(1)) if m else 2048
+        except OSError:
+            return 2048
+
     def query(self, expr, timeout=20):
         """pdsh -Q -w EXPR -> (class, [hosts]|None, truncated)"""
-        rc, out, err = self.run(["-Q", "-w", expr], timeout=timeout)
+        return self.query_args(["-w", expr], timeout=timeout)
+
+    def query_args(self, args, timeout=20, env_extra=None):
+        """pdsh -Q ARGS.. -> (class, [hosts]|None, truncated); a timeout alone is tried once more"""
+        for attempt in (0, 1):
+            rc, out, err = self.run(["-Q"] + list(args), timeout=timeout, env_extra=env_extra)
+            if rc != "timeout":
+                break
         if rc != 0:
             return self.diag(rc, err), None, False
         lines = out.split(b"\n")
@@ -727,7 +744,15 @@ class Cli:
 
     def contact(self, expr):
         """pdsh -R exec -f 1 -w EXPR echo %h -> (class, [hosts in contact order])"""
-        rc, out, err = self.run(["-R", "exec", "-f", "1", "-N", "-w", expr, "echo", "%h"], timeout=60)
+        return self.contact_args(["-w", expr])
+
+    def contact_args(self, args, env_extra=None):
+        """pdsh -R exec -f 1 -N ARGS.. echo %h -> (class, [hosts in contact order]); a timeout alone is tried once more"""
+        for attempt in (0, 1):
+            rc, out, err = self.run(["-R", "exec", "-f", "1", "-N"] + list(args) + ["echo", "%h"], timeout=60,
+                                    env_extra=env_extra)
+            if rc != "timeout":
+                break
         if rc != 0:
             return self.diag(rc, err), None
         return "ok", [l for l in out.split(b"\n") if l]
